@@ -178,6 +178,7 @@ struct Snap {                               // process residue snapshot
     std::string real_fds;                   // listing of /proc/self/fd
     long lib_live_allocs = 0, lib_live_bytes = 0;
     uint64_t env_sum = 0; std::string cwd; unsigned umask_v = 0; uint64_t sig_sum = 0;
+    std::string locale;                     // setlocale(LC_ALL, NULL): the caller's locale is its state too
 };
 
 struct ExecObs {                            // everything observed about one wrapped call
